@@ -465,9 +465,6 @@ func (a *App) Run(w Widget) error {
 					return err
 				}
 			}
-			if a.shouldQuit {
-				return nil
-			}
 		case <-time.After(8 * time.Millisecond):
 			if !a.redraw {
 				continue
@@ -521,6 +518,11 @@ func (a *App) Run(w Widget) error {
 			a.fh.updatePath(a, s)
 			// Update the mouse last frame
 			mh.lastFrame = s
+		}
+		// Handlers are called from both arms (a frame delivers MouseEnter,
+		// MouseLeave, FocusOut and FocusIn), and any of them may ask to quit
+		if a.shouldQuit {
+			return nil
 		}
 	}
 }
